@@ -31,13 +31,16 @@ REQ_TECH = ("TLA+ spec RequestObs.tla model-checked with TLC (RequestObsMC); des
 for _pid, _txt in {
     "C01": "exactly one reply per request: AtMostOneReply / AllAnsweredAtRest on the spec; every recorded trace is checked for duplicate replies, replies "
            "after completion and - at quiescence - requests never answered although every attempt was answered or dropped; stages include connections the "
-           "proxy gives up itself (silent nodes), a client that reads late and one that never reads (thousands of 20 KiB answers queued)",
+           "proxy gives up itself (silent nodes), a client that reads late and one that never reads (thousands of 20 KiB answers queued); "
+           "Pending.tla (the stream-id pool and pending map of a backend connection, one action per container operation) checked by TLC, and call/return "
+           "histories of the real table under concurrent goroutines validated against it (TLC searches the interleaving of the unobservable steps): a stored request "
+           "must be found under its stream id exactly once",
     "C02": "replies carry the token and node of the attempt they answer, on the submitting client's stream; backend stream ids are never reused while in use; "
            "many clients with equal stream ids, delayed and reordered responses; a volume stage that uses every backend stream id of a connection and "
            "answers a heartbeat after the proxy gave up on it; pipelined and retried writes under a consistency override; short-lived clients that hang up with responses outstanding; "
            "bursts of pipelined requests which the proxy answers itself (request class LOCAL of the specification: exactly its own rows, never a backend); "
            "nodes that stop reading and then drop their connections with bulky requests queued; "
-           "a second frame on a stream is a violation too",
+           "a second frame on a stream is a violation too; Pending.tla / TracePending.tla (see C01): a stream id is handed out only while no request holds it",
     "C04": "NonIdemNotReexecuted on the spec for all outcome/drop sequences; in traces every backend execution of a request that is not positively idempotent "
            "must follow only outcomes that guarantee the previous attempt was not applied; statements in many spellings (function names in any case, "
            "qualified, inside collections / tuples / nested calls), EXECUTE and BATCH with prepared children in every position, graph requests as traversal "
